@@ -3167,3 +3167,38 @@ def t_portlink( ctx ):
     else:
         res.ok( src, fn, 'port_link gives the segment every spelling of the table denotes ( %d spellings, 6 refused )' % len( TABLE ))
     return res
+
+
+# ---------------------------------------------------------------------------------------- C12: T-BOOLTEXT (the words a BOOL value is written in)
+
+@rule( 'T-BOOLTEXT', props=( 'C12', ), floor=1 )
+def t_booltext( ctx ):
+    """client.bool_validate - the converter of '(BOOL)' values in operation texts - by value: numbers and the words true / false in any
+    letter case, blank-padded or not ( the values are "a comma-separated, whitespace-padded list": every other type converts ' 1 ' ), give
+    their truth value; any other word is refused"""
+    res = Result( 'T-BOOLTEXT' )
+    src = ctx.src( CLIENT )
+    fn = src.get( 'bool_validate' )
+    params = [ a.arg for a in fn.args.args ]
+    body = [ s for s in fn.body if not ( isinstance( s, ast.Expr ) and isinstance( s.value, ast.Constant )) ]
+    TABLE = (( 'true', True ), ( 'false', False ), ( 'True', True ), ( 'FALSE', False ), ( '1', True ), ( '0', False ), ( '7', True ), ( ' 1', True ), ( '0 ', False ),
+             ( ' true', True ), ( 'false ', False ), ( ' True ', True ), ( 'yes', 'raise' ), ( '', 'raise' ), ( 'tru', 'raise' ), ( 'true false', 'raise' ))
+    wrong = []
+    for word, want in TABLE:
+        env = { params[0]: word, 'int': int, 'str': str, 'bool': bool, 'ValueError': ValueError, 'Exception': Exception, 'TypeError': TypeError }
+        try:
+            out = run_block( body, env, ignore_calls=( 'log', ))
+            got = 'raise' if out.kind == 'raise' else out.value if out.kind == 'return' else out.kind
+        except Raises as exc:
+            got = 'raise'
+        except NoFold as exc:
+            raise AnalysisError( 'bool_validate: outside the modelled subset for %r: %s' % ( word, str( exc )[:80] ))
+        res.cells += 1
+        if got is not want and got != want or type( got ) is not type( want ):
+            wrong.append(( word, want, got ))
+    if wrong:
+        res.bad( src, fn, 'bool_validate( %r ) gives %s, not %s ( %d of %d words differ )' % ( wrong[0][0], wrong[0][2], wrong[0][1], len( wrong ), len( TABLE )),
+                 'a BOOL value written like the values of every other type - blank-padded in its list - is refused, or a word stands for another truth value than it spells' )
+    else:
+        res.ok( src, fn, 'bool_validate gives the truth value of every number and of true / false in any case and padding, and refuses other words ( %d words )' % len( TABLE ))
+    return res
